@@ -517,3 +517,48 @@ Section BytesProofs.
     md5_file byte hstate upd bs content m = Some (upd m content).
   Proof. intros bs content m Hbs. unfold md5_file. apply md5_loop_spec; [exact Hbs|lia]. Qed.
 End BytesProofs.
+
+(* ---------------------------------------------------------------------------------------------- *)
+(* stage 5: availability read off the server (Spec.SoundFinal)                                     *)
+
+Section Flow5.
+  Variable md5 : Z -> Z.
+  Variable w : world.
+  Let r := download md5 w.
+
+  (* a normal return: if the checksum answer the server holds ready after the last data GET (the first
+     answer, when no data GET was made) publishes c, the file has MD5 c *)
+  Lemma sound_final : SoundFinal md5 w r.
+  Proof.
+    unfold SoundFinal, r, k_final. run_download w; intros Hr c' Hc; try discriminate Hr; cbn in Hc;
+      (eexists; split; [reflexivity|]; congruence).
+  Qed.
+
+  (* the answer in question is the last one the model consulted *)
+  Lemma k_final_last : returned (r_out r) = true -> n_sum r = S (k_final r).
+  Proof. unfold r, k_final. run_download w; intros Hr; try discriminate Hr; reflexivity. Qed.
+
+  Lemma model_meets_spec5 : Spec5 md5 w r.
+  Proof. exact (conj (model_meets_spec md5 w) sound_final). Qed.
+End Flow5.
+
+Section Reflect5.
+  Variable md5 : Z -> Z.
+  Variable w : world.
+  Variable o : result.
+
+  Lemma sound_final_b_iff : sound_final_b md5 w o = true <-> SoundFinal md5 w o.
+  Proof.
+    unfold sound_final_b, SoundFinal. destruct (returned (r_out o)); [|split; intros; [discriminate|reflexivity]].
+    destruct (wsum w (k_final o)) as [c|].
+    - destruct (r_file o) as [b|]; split; intros H.
+      + intros _ c' Hc. exists b. split; [reflexivity|]. apply Z.eqb_eq in H. congruence.
+      + destruct (H eq_refl c eq_refl) as (b' & Hb & Hm). apply Z.eqb_eq. congruence.
+      + discriminate.
+      + destruct (H eq_refl c eq_refl) as (b' & Hb & _). discriminate.
+    - split; [|reflexivity]. intros _ _ c Hc. discriminate.
+  Qed.
+
+  Lemma spec5_b_iff : spec5_b md5 w o = true <-> Spec5 md5 w o.
+  Proof. unfold spec5_b, Spec5. rewrite andb_true_iff, spec_b_iff, sound_final_b_iff. reflexivity. Qed.
+End Reflect5.
